@@ -2,8 +2,8 @@
   Driver for the graceful-shutdown LTS (C12), stream `serverconn`:
 
     consts                      → pollMs=<n> drainMs=<n> idleSecs=<n> readDlMs=<n> waits=<n> closes=<n>
-    variant                     → release=<asFound|afterDrain> closeIdles=<asFound|kickOnly> invokeDec=<deferred|lastStatement>   (what the extractor saw)
-    admits <asFound|fixed|atomic|repaired|leak|tree> <N> <Q> <budget> <event>…
+    variant                     → release=<asFound|afterDrain> closeIdles=<asFound|kickOnly> invokeDec=<deferred|lastStatement|beforeWrite>   (what the extractor saw)
+    admits <asFound|fixed|atomic|repaired|leak|early|tree> <N> <Q> <budget> <event>…
         → ok <maxStates> <finalStates>        the LTS has a run with exactly this visible history
         → reject <i> <event> <states>         no run performs the first i events and then event i
         → budget <i>                          state set exceeded the budget (nothing decided)
@@ -28,7 +28,7 @@
   every other action of the LTS is internal (τ); `admits` closes the state set under τ after each event.
 
   actions for `run`: cn · sd.c.r · ac.c · rg.c · st.c · rd.c.n · re.c.<0|1> · ag.c · dp.c · eq.c · pt · pg ·
-    hs.c.i hf.c.i hw.c.i hk.c.i hd.c.i · sn.c.r · dc.c · sc · cl · ax · rc · ps · rr · cm · or · cb · cv.c · cc · ce · cx ·
+    hs.c.i hf.c.i he.c.i hw.c.i hl.c.i hk.c.i hd.c.i · sn.c.r · dc.c · sc · cl · ax · rc · ps · rr · cm · or · cb · cv.c · cc · ce · cx ·
     rR.c.i · rM.c · rX.c
 -/
 import Std.Data.HashSet
@@ -135,7 +135,7 @@ def fire (cfg : Cfg) (s : State) : Ev → List State
     | none => []
   | .ended c r =>
     match reqIndex s c r with
-    | some i => (step cfg s (.fin c i)).toList
+    | some i => (step cfg s (.fin c i)).toList ++ (step cfg s (.finEarly c i)).toList
     | none => []
   | .rsp c r =>
     match reqIndex s c r with
@@ -171,6 +171,7 @@ def outputEnabled (cfg : Cfg) (s : State) : Bool :=
     | some k =>
       ((List.range k.reqs.length).any fun i =>
         (step cfg s (.start c i)).isSome || (step cfg s (.fin c i)).isSome ||
+        (step cfg s (.finEarly c i)).isSome ||
         (step cfg s (.recvRsp c i)).isSome) ||
       (step cfg s (.recvMsg c)).isSome || (step cfg s (.recvEof c)).isSome
     | none => false
@@ -204,6 +205,7 @@ def tauActions (fine : Bool) (s : State) : List Action :=
         | some q =>
           match q.st with
           | .finished => [Action.write c i, Action.skip c i]
+          | .writePending => [Action.lateWrite c i]
           | _ => []
         | none => []
       recv ++ hs
@@ -331,6 +333,7 @@ def parseCfg (v : String) (n q : Nat) : Option Cfg :=
   | "atomic" => some { asFound (poolOf n q) with ci := .atomic }
   | "repaired" => some (repaired (poolOf n q))
   | "leak" => some { repaired (poolOf n q) with decDeferred := false }
+  | "early" => some { repaired (poolOf n q) with decDeferred := false, decEarly := true }
   | "tree" => some (treeCfg (poolOf n q))
   | _ => none
 
@@ -355,7 +358,7 @@ def parseAct (tok : String) : Option Action :=
     match parseNat? a, parseNat? b with
     | some a, some b =>
       match k with
-      | "sd" => some (.send a b) | "sn" => some (.sendNR a b) | "hk" => some (.skip a b) | "rd" => some (.read a b) | "re" => some (.readErr a (b != 0))
+      | "sd" => some (.send a b) | "sn" => some (.sendNR a b) | "hk" => some (.skip a b) | "he" => some (.finEarly a b) | "hl" => some (.lateWrite a b) | "rd" => some (.read a b) | "re" => some (.readErr a (b != 0))
       | "hs" => some (.start a b) | "hf" => some (.fin a b) | "hw" => some (.write a b)
       | "hd" => some (.dec a b) | "rR" => some (.recvRsp a b)
       | _ => none
@@ -371,7 +374,7 @@ def pstName : PSt → String
 
 def stName : HSt → String
   | .queued => "q" | .handed => "h" | .running => "r" | .finished => "f"
-  | .wrote true => "W" | .wrote false => "w" | .done true => "D" | .done false => "d" | .leaked => "L"
+  | .wrote true => "W" | .wrote false => "w" | .done true => "D" | .done false => "d" | .leaked => "L" | .writePending => "p" | .doneLate true => "A" | .doneLate false => "a"
 
 def b01 (b : Bool) : String := if b then "1" else "0"
 
@@ -405,7 +408,7 @@ def handle (ws : List String) : String :=
     let c := treeCfg none
     let r := if c.releaseAfterDrain then "afterDrain" else "asFound"
     let ci := match c.ci with | .asFound => "asFound" | .atomic => "atomic" | .kickOnly => "kickOnly"
-    let d := if c.decDeferred then "deferred" else "lastStatement"
+    let d := if c.decDeferred then "deferred" else if c.decEarly then "beforeWrite" else "lastStatement"
     s!"release={r} closeIdles={ci} invokeDec={d}"
   | "admits" :: v :: n :: q :: b :: toks =>
     match parseNat? n, parseNat? q, parseNat? b with
